@@ -589,6 +589,9 @@ func (s *Store) flushTick() {
 }
 
 func (s *Store) commit() (types.Work, error) {
+	// Freelist entries put from here on may belong to index updates that the
+	// index flush below does not include. They are left for the next commit.
+	flCount := s.freelist.PutCount()
 	primaryWork, err := s.index.Primary.Flush()
 	if err != nil {
 		return 0, err
@@ -597,7 +600,7 @@ func (s *Store) commit() (types.Work, error) {
 	if err != nil {
 		return 0, err
 	}
-	flWork, err := s.freelist.Flush()
+	flWork, err := s.freelist.FlushTo(flCount)
 	if err != nil {
 		return 0, err
 	}
